@@ -221,8 +221,10 @@ void NewRecord(LargeWord NStart) {
 
 #ifdef ASL_VERIF
     if (VerifTrace()) {
-        fprintf(VerifTrace(), "N pass=%d seg=%d hdr=%02x start=%llx lensofar=%u\n", (int)PassNo,
-                (int)ActPC, (unsigned)HeaderID, (unsigned long long)NStart, (unsigned)LenSoFar);
+        fprintf(VerifTrace(), "N pass=%d seg=%d hdr=%02x start=%llx lensofar=%u line=%ld pc=%llx file=%s\n",
+                (int)PassNo, (int)ActPC, (unsigned)HeaderID, (unsigned long long)NStart,
+                (unsigned)LenSoFar, (long)CurrLine, (unsigned long long)ProgCounter(),
+                CurrFileName ? CurrFileName : "");
     }
 #endif
 
